@@ -190,6 +190,10 @@ func (v *V2) ReadIndex(path string) ([]byte, error) {
 	if err = idFile.Close(); err != nil {
 		return nil, errors.Wrapf(err, "failed to close segment index file %s", path)
 	}
+	if uint32(len(indexBuf)) < v.GetIndexHeaderSize() {
+		return nil, errors.Wrapf(ErrDataCorrupted,
+			"segment index file %s is shorter than its header: %d bytes", path, len(indexBuf))
+	}
 	expectedCrc := ReadInt(indexBuf, 0)
 	actualCrc := crc.Checksum(0).Update(indexBuf[v.GetIndexHeaderSize():]).Value()
 	if expectedCrc != actualCrc {
